@@ -245,6 +245,11 @@ func (r *Run) Finish() int {
 	for k, v := range r.Extra {
 		cov[k] = v
 	}
+	if len(r.Samples) == 0 && len(r.Violations) > 0 {
+		// a run that stopped at a violation before its sampling point: the violating case is the case it explored
+		v := r.Violations[0]
+		cov["samples"] = []interface{}{map[string]interface{}{"violating_case": v.Signature, "clause": v.Clause, "detail": v.Detail}}
+	}
 	if cov["samples"] == nil {
 		cov["samples"] = []interface{}{}
 	}
